@@ -1,17 +1,17 @@
 package govc
 
 import (
-	"os"
-	"sync"
 	"fmt"
 	"go/token"
+	"os"
 	"sort"
 	"strings"
+	"sync"
 )
 
 // Fact is an entry of Γ: a definition, a guarded assumption, or a quantified fact.
 type Fact struct {
-	Def   *Term // if non-nil: the defined constant; Body is (= Def expr)
+	Def   *Term       // if non-nil: the defined constant; Body is (= Def expr)
 	Tag   interface{} // DAG node under whose guard the fact was assumed (nil: unconditional)
 	Body  *Term
 	Vars  []*Term // quantified variables (const placeholders); nil for ground facts
@@ -53,21 +53,21 @@ type FuncDecl struct {
 
 // VC is the verification-condition context of one function-under-contract (one case).
 type VC struct {
-	Facts  []Fact
-	Obls   []*Obligation
-	funcs  map[string]*FuncDecl
-	nameCt map[string]int
-	defs   map[string]int // const name -> fact index of its definition
-	Warn   []string
-	warned map[string]bool
+	Facts       []Fact
+	Obls        []*Obligation
+	funcs       map[string]*FuncDecl
+	nameCt      map[string]int
+	defs        map[string]int // const name -> fact index of its definition
+	Warn        []string
+	warned      map[string]bool
 	Assumptions map[string]bool
-	Skolems []*Term
-	CurTag  interface{}
-	Ancestors func(tag interface{}) map[interface{}]bool
-	symMu   sync.Mutex
-	Broad   bool // instantiate driven by every select of the query (fallback)
-	symMemo map[*Term]map[string]bool
-	dsymMemo map[*Term]map[string]bool
+	Skolems     []*Term
+	CurTag      interface{}
+	Ancestors   func(tag interface{}) map[interface{}]bool
+	symMu       sync.Mutex
+	Broad       bool // instantiate driven by every select of the query (fallback)
+	symMemo     map[*Term]map[string]bool
+	dsymMemo    map[*Term]map[string]bool
 }
 
 func NewVC() *VC {
@@ -184,8 +184,8 @@ func hasArrayOps(t *Term, seen map[*Term]bool) bool {
 // trigger: a select(arr, idx) subterm of a quantified fact whose index mentions the bound variable.
 type trigger struct {
 	arr, idx, base *Term
-	v            *Term // the quantified variable this trigger binds
-	plain        bool  // idx is exactly the bound variable
+	v              *Term // the quantified variable this trigger binds
+	plain          bool  // idx is exactly the bound variable
 }
 
 // AssumeForall adds a quantified fact (instantiated engine-side). The body is miniscoped: conjuncts are
@@ -609,6 +609,9 @@ func (vc *VC) BuildQueryRel(o *Obligation, goal *Term, extra []*Term, light bool
 	for i := range facts {
 		f := &facts[i]
 		if anc != nil && f.Tag != nil && !anc[f.Tag] {
+			if dl := os.Getenv("GOVC_DBGFACT"); dl != "" && f.Label == dl {
+				fmt.Fprintf(os.Stderr, "DBGFACT sliced away: %.200s\n", TermText(f.Body))
+			}
 			continue
 		}
 		if f.Vars != nil {
@@ -872,6 +875,9 @@ func (vc *VC) BuildQueryRel(o *Obligation, goal *Term, extra []*Term, light bool
 				nLow += ninst - lastBefore
 			}
 			f := qfacts[fi]
+			if dl := os.Getenv("GOVC_DBGFACT"); dl != "" && f.Label == dl && round == 0 {
+				fmt.Fprintf(os.Stderr, "DBGFACT %s vars=%d trigs=%d body=%.300s\n", f.Label, len(f.Vars), len(f.Trigs), TermText(f.Body))
+			}
 			lastLow, lastBefore = prio(f) == 2, ninst
 			preciseOnly = f.Label == "ref-bound"
 			if ninst > 3000 {
